@@ -196,7 +196,29 @@ pub fn run_budgeted(
     max_slices: usize,
     slice_units: usize,
 ) -> (RunEnd, Trace, Option<Executor<NativeEffect>>) {
-    let Some(entry) = bc.entry else { return (RunEnd::Error("no entry".into()), vec![], None) };
+    let (a, b2, c, _) = run_budgeted_heap(bc, b, profile, trace_on, max_slices, slice_units, false);
+    (a, b2, c)
+}
+
+/// Peak heap occupancy sampled after every `step` (where `process_pending_free` has just run and
+/// one slice of garbage has been produced): slots in use (allocated, not in the reuse pool) and
+/// length of the deferred-free queue.
+#[derive(Clone, Copy, Debug, Default)]
+pub struct HeapPeaks {
+    pub in_use: usize,
+    pub pending: usize,
+}
+
+pub fn run_budgeted_heap(
+    bc: &Bytecode,
+    b: &Builtins,
+    profile: bool,
+    trace_on: bool,
+    max_slices: usize,
+    slice_units: usize,
+    sample_heap: bool,
+) -> (RunEnd, Trace, Option<Executor<NativeEffect>>, HeapPeaks) {
+    let Some(entry) = bc.entry else { return (RunEnd::Error("no entry".into()), vec![], None, HeapPeaks::default()) };
     // a panic inside a simulator run may have left the per-thread controls set
     quiver_core::executor::verif::set_quantum_override(None);
     quiver_core::executor::verif::set_trace(None);
@@ -228,23 +250,29 @@ pub fn run_budgeted(
             builtin_param_compatibility: bpc,
             canonical_tuples,
         });
+        let mut hp = HeapPeaks::default();
         if let Err(e) = ex.spawn_process(0, Some(entry), vec![], Value::nil(), vec![], false) {
-            return (RunEnd::Error(qverif::canon::error_class(&e)), None);
+            return (RunEnd::Error(qverif::canon::error_class(&e)), None, hp);
         }
         for _ in 0..max_slices {
             let (did, action) = ex.step(slice_units, 0);
-            let Some(p) = ex.get_process(0) else { return (RunEnd::Error("process disappeared".into()), None) };
+            if sample_heap {
+                let hv = ex.verif_heap_view();
+                hp.in_use = hp.in_use.max(hv.freed.iter().filter(|f| !**f).count());
+                hp.pending = hp.pending.max(hv.pending_free.len());
+            }
+            let Some(p) = ex.get_process(0) else { return (RunEnd::Error("process disappeared".into()), None, hp) };
             if let Some(res) = &p.result {
                 return match res {
-                    Ok(_) => (RunEnd::Value, Some(ex)),
-                    Err(e) => (RunEnd::Error(error_detail(e)), None),
+                    Ok(_) => (RunEnd::Value, Some(ex), hp),
+                    Err(e) => (RunEnd::Error(error_detail(e)), None, hp),
                 };
             }
             if action.is_some() || !did {
-                return (RunEnd::Parked, None);
+                return (RunEnd::Parked, None, hp);
             }
         }
-        (RunEnd::Budget, None)
+        (RunEnd::Budget, None, hp)
     });
     let trace = if trace_on {
         let t = quiver_core::executor::verif::take_trace().unwrap_or_default();
@@ -254,8 +282,8 @@ pub fn run_budgeted(
         vec![]
     };
     match r {
-        Ok((e, ex)) => (e, trace, ex),
-        Err(p) => (RunEnd::Panic(p.lines().next().unwrap_or("").to_string()), trace, None),
+        Ok((e, ex, hp)) => (e, trace, ex, hp),
+        Err(p) => (RunEnd::Panic(p.lines().next().unwrap_or("").to_string()), trace, None, HeapPeaks::default()),
     }
 }
 
